@@ -91,9 +91,19 @@ def run(tier: str, seed: int) -> int:
             arr = geom.make_array(kind, elems, aff, subtype)
             n = len(elems)
             for ti, tb in enumerate(TBS):
+                if ti == len(TBS) // 2 + ai % 2:
+                    # history: from here on the SAME object has a spatial index (built lazily by a query, or explicitly) - the
+                    # distances of its elements must not depend on that
+                    if ai % 2:
+                        arr.build_sindex(page_size=2)
+                    arr.sindex.intersects((-1e9, -1e9, 1e9, 1e9))
                 for p in (PS if tier == "thorough" else [PS[(ti + ai) % len(PS)], PS[(ti + ai + 3) % len(PS)]]):
                     if tb is None:
                         d = arr.hilbert_distance(p=p)
+                        if len(d) != n:
+                            chk.violation(f"length|{kind}", f"{type(arr).__name__}.hilbert_distance(p={p}) returns {len(d)} values for {n} elements "
+                                          f"(index built on the object: {ti >= len(TBS) // 2 + ai % 2})", "", ctx=dict(site="hilbert_distance", mode="length"))
+                            continue
                         chk.count(n)
                         for i in range(n):
                             recs.append(dict(op="hdd", kind=kind, elems=[dict(null=e["null"], g=e["g"]) for e in elems], i=i + 1, p=p,
@@ -108,6 +118,10 @@ def run(tier: str, seed: int) -> int:
                         chk.violation(f"raises|{kind}|{type(arg).__name__}|{tb}", f"{type(arr).__name__}.hilbert_distance(total_bounds={arg!r}, p={p}) raises "
                                       f"{type(ex).__name__}: {ex}", f"# {kind} total_bounds={arg!r} p={p}\n",
                                       ctx=dict(site="hilbert_distance", mode="raises", container=type(arg).__name__))
+                        continue
+                    if len(d) != n:
+                        chk.violation(f"length|{kind}", f"{type(arr).__name__}.hilbert_distance(total_bounds={arg!r}, p={p}) returns {len(d)} values for {n} "
+                                      f"elements (index built on the object: {ti >= len(TBS) // 2 + ai % 2})", "", ctx=dict(site="hilbert_distance", mode="length"))
                         continue
                     chk.count(n)
                     if not same_container(keep, arg):
